@@ -17,6 +17,7 @@ import (
 
 type Clause struct {
 	Private bool // proves: checked in the function's own VC, not assumed by callers
+	RetIdx  int  // proves @ret:N: only at the N-th return statement of the function (in source order, from 1)
 	Label string
 	E     Expr
 	Src   string
@@ -552,11 +553,21 @@ func (cs *Contracts) LoadContractFile(path, pkg string) error {
 		case "proves":
 			// a postcondition proved in the function's own VC (a lemma for its later postconditions)
 			// that callers do not get
+			retIdx := 0
+			if strings.HasPrefix(rest, "@ret:") {
+				w2, r2 := splitWord(rest)
+				n, e2 := strconv.Atoi(w2[len("@ret:"):])
+				if e2 != nil || n < 1 {
+					return fail("proves @ret:N needs a positive number")
+				}
+				retIdx, rest = n, r2
+			}
 			c, err := mkClause(rest)
 			if err != nil {
 				return err
 			}
 			c.Private = true
+			c.RetIdx = retIdx
 			cur.Ensures = append(cur.Ensures, c)
 		case "nocall":
 			cur.NoCalls = append(cur.NoCalls, strings.Fields(rest)...)
